@@ -601,12 +601,15 @@ PROPS = {
     },
     "C07": {
         "module": "DnsModel.Theorems.C07",
-        "theorems": [],
+        "theorems": ["Dns.C07.rename_spec", "Dns.C07.rename_self", "Dns.replaceRaw_spec", "Dns.rename_record"],
         "families": [{"name": "rename-families", "quick": 0, "thorough": 0, "fixed": True}, {"name": "rename-boundary", "quick": 0, "thorough": 0, "fixed": True}, {"name": "rename", "quick": 1500, "thorough": 75000}],
         "oracle": oracle_c07,
         "nontrivial": lambda c, a: a.startswith("ok") or a.startswith("err"),
         "rule": "accepted packets (4 layouts) x 2 (target, source, mode): sources drawn from the packet's own name suffixes (matches at every depth), case variants, one-character near-misses, unrelated; targets incl. self and names that push the result past 255 bytes",
-        "level": "other", "explanation": "", "assumptions": [],
+        "level": "proof",
+        "explanation": "theorems: for every accepted packet (compressed or not), every pair of well-formed pointer-free non-root names and both modes, the model of rename_with_raw_names either returns a packet that satisfies the acceptance policy, keeps the 12 header bytes, and whose question and records are one by one the input's with every name the library understands (owner, NS/CNAME/PTR/MX/SOA data) replaced by its renaming - the name, or in suffix mode a suffix on a label boundary, equal to the source up to case becomes the target; any other name is kept - up to ASCII case, type/class/TTL bytes and all other data incl. OPT identical; or it fails with InvalidName and some renamed name would exceed 255 bytes; renaming a name to itself never fails and keeps every name up to case. replace_raw is characterised exactly on pointer-free names (hit / unchanged / too long); "
+                       "correspondence: the real renamer is byte-identical to the model's on generated packets, sources drawn from the packet's own suffixes, near-misses, growth past 255",
+        "assumptions": ["the theorem is about Renamer::rename_with_raw_names; the ParsedPacket wrapper re-parses its result (accepted by the theorem) and asserts the EDNS summary is unchanged - that assert is covered by correspondence (C08 scripts), not by this theorem"],
     },
     "C08": {
         "module": "DnsModel.Theorems.C08", "theorems": [],
@@ -737,8 +740,8 @@ MANIFEST_TEXT = {
             "note": NOTE, "technique": "Lean 4 proof (walks as folds, canonical-form relation, translation invariance of the policy under copying, determinism of layouts) + model/implementation correspondence + reference decoder oracle"},
     "C06": {"text": "Lean theorems for every accepted pointer-free packet: compress() (model, with the 32-entry depth-tracked suffix dictionary) succeeds; the output is no longer than the input, satisfies the acceptance policy, keeps the 12 header bytes and the question byte for byte, and its records are one by one the input's up to the case of names - each name decodes under the validator's pointer discipline to labels equal up to ASCII case (so every pointer designates a name equal to the suffix it stands for), everything else including OPT is identical; decompressing the output gives the input up to name case. Invariant: every committed dictionary entry designates a place in the output where a name equal up to case decodes with the recorded depth (< 16 to be pointed at). Real output byte-identical to the model's on random messages and on the dictionary families (31..70 suffixes, 126..255-byte suffixes, nesting to 40, offsets beyond 16383, mixed case, OPT anywhere); oracle checks acceptance, no growth, message equality up to case, question bytes.",
             "note": NOTE, "technique": "Lean 4 proof (dictionary invariant, emission lemmas, case-fold comparison soundness, parametricity in the output) + model/implementation correspondence + reference decoder oracle"},
-    "C07": {"text": "Model of Renamer (replace_raw, per-type rdlen, OPT in place); real output byte-identical to the model's; oracle compares the decoded result with the specified renaming of the decoded input (matches at every depth, near-misses, case, growth past 255)." + PENDING,
-            "note": NOTE, "technique": "model/implementation correspondence + reference decoder oracle"},
+    "C07": {"text": "Lean theorems for every accepted packet, every well-formed pointer-free non-root source/target and both modes: the renamer (model: replace_raw, per-type data lengths, OPT in place, the compressor's dictionary) either returns a packet that satisfies the acceptance policy, keeps the header bytes, counts and record order, and whose question, owner names and NS/CNAME/PTR/MX/SOA names are exactly the renamings of the input's (a name, or in suffix mode a suffix on a label boundary, equal to the source up to case is replaced by the target; every other name kept) up to ASCII case with all other bytes incl. OPT identical, or fails with InvalidName because a renamed name would exceed 255 bytes; self-renaming never fails and changes nothing up to case. Real output byte-identical to the model's; oracle compares the decoded result with the specified renaming of the decoded input (matches at every depth, near-misses, case, growth past 255).",
+            "note": NOTE, "technique": "Lean 4 proof (replace_raw characterisation, rename relation, compressor invariant reused) + model/implementation correspondence + reference decoder oracle"},
     "C08": {"text": "State-machine model (packet object + one cursor) of every mutator; after every operation of every script the real object's bytes, public fields, cache and cursor equal the model's, and the oracle re-derives the view from the bytes alone. By-design findings KF1-KF5 are waived only when KNOWN_FINDINGS lists them." + PENDING,
             "note": NOTE, "technique": "step-wise model/implementation correspondence on operation scripts + reference decoder oracle"},
     "C09": {"text": "Same scripts as C08; after every operation the decoded message must be the message before with exactly the specified change (abstract list operation on the decoded message)." + PENDING,
